@@ -786,6 +786,25 @@ func uncoveredMethods() []string {
 	return out
 }
 
+// uncoveredFluent lists interface methods that return the interface's own type and are neither in the fluent
+// table of the hist engine nor known to return a new container.
+func uncoveredFluent() []string {
+	var out []string
+	for _, t := range []reflect.Type{reflect.TypeOf((*at.List)(nil)).Elem(), reflect.TypeOf((*at.Object)(nil)).Elem()} {
+		for i := 0; i < t.NumMethod(); i++ {
+			m := t.Method(i)
+			if m.PkgPath != "" || m.Type.NumOut() != 1 || m.Type.Out(0) != t {
+				continue
+			}
+			if !fluentCovered[m.Name] && !returnsNew[m.Name] {
+				out = append(out, t.Name()+"."+m.Name+" (returns "+t.Name()+", not in the fluent table)")
+			}
+		}
+	}
+	sort.Strings(out)
+	return out
+}
+
 // collect lists every container reachable from the roots, in a deterministic order.
 func collect(roots ...any) (lists []at.List, objs []at.Object) {
 	seen := map[uintptr]bool{}
